@@ -35,7 +35,7 @@ def build_harness(wd, prop, sanitize=True):
     for f in ["config.c", "log.c", "set.c", "common.c", "bitset.c", "accumulators.c", "git-version.c"]:
         srcs.append(os.path.join(r, "src", f))
     path, log = core.compile_c(wd, "h_proto" if sanitize else "h_proto_plain", srcs, sanitize=sanitize,
-                               libs=["-levent", "-lm", "-Wl,--wrap=event_new,--wrap=event_free,--wrap=event_base_once,--wrap=malloc"])
+                               libs=["-levent", "-lm", "-Wl,--wrap=event_new,--wrap=event_free,--wrap=event_base_once,--wrap=malloc,--wrap=event_assign,--wrap=event_del"])
     if path:
         os.makedirs(os.path.join(wd, "run"), exist_ok=True)
     return path, log
